@@ -327,6 +327,16 @@ func (pi *pkgInfo) astMatch(cand ast.Expr, pattern ast.Expr) bool {
 	return ok
 }
 
+// astMatchEnv: like astMatchR, for a candidate inside a helper whose parameters stand for the
+// arguments of the call (env).
+func (pi *pkgInfo) astMatchEnv(cand ast.Expr, pattern ast.Expr, env map[types.Object]ast.Expr) (bool, map[ast.Expr]ast.Expr) {
+	m := &amatch{pi: pi, fwd: map[string]types.Object{}, bwd: map[types.Object]string{}, repl: map[ast.Expr]ast.Expr{}, env: env}
+	if m.eq(pattern, cand) {
+		return true, m.repl
+	}
+	return false, nil
+}
+
 // astMatchR also returns the identity replacements (see amatch.repl) of a successful match.
 func (pi *pkgInfo) astMatchR(cand ast.Expr, pattern ast.Expr) (bool, map[ast.Expr]ast.Expr) {
 	m := &amatch{pi: pi, fwd: map[string]types.Object{}, bwd: map[types.Object]string{}, repl: map[ast.Expr]ast.Expr{}}
